@@ -105,7 +105,7 @@ def loop_keys(func, qual, kind=ast.While):
     """[(qualname, 'while@<line>'), ...] for the loops of a function, from the working tree."""
     lines, start = inspect.getsourcelines(func)
     tree = ast.parse(textwrap.dedent(''.join(lines)))
-    tag = 'while' if kind is ast.While else 'for'
+    tag = {ast.While: 'while', ast.For: 'for', ast.ListComp: 'listcomp'}[kind]
     lines = sorted(n.lineno for n in ast.walk(tree) if isinstance(n, kind))      # source order
     return [(qual, '%s@%d' % (tag, ln + start - 1)) for ln in lines]
 
